@@ -39,7 +39,7 @@ def count(tier, seed):
 
 def make_case(tier, seed, index):
     rng = gen.rng_for(seed, 17, index)
-    pf = {"p_targetable": 0.7, "n_pops": (1, 2), "steps": (2, 6), "p_timed": 0.2, "n_junctions": (0, 1), "value_classes": ["mild"], "n_ord": (2, 4), "p_function": 0.3}
+    pf = {"p_targetable": 0.7, "n_pops": (1, 2), "p_transfer": 0.7, "p_interaction": 0.5, "p_aggregation": 0.4, "steps": (2, 6), "p_timed": 0.2, "n_junctions": (0, 1), "value_classes": ["mild"], "n_ord": (2, 4), "p_function": 0.3}
     for _ in range(10):
         spec = gen.gen_spec(rng, pf)
         ps = gen.gen_progspec(rng, spec)
@@ -56,6 +56,19 @@ def make_case(tier, seed, index):
                 v["sigma"] = 0.0 if rng.random() < 0.5 else None
             elif is_par and rng.random() < 0.7:
                 v["sigma"] = float(rng.choice([0.05, 0.2]))
+    # transfers and interactions are sampled too
+    for t in spec.get("transfers", []):
+        for e in t["entries"]:
+            if zero:
+                e[3]["sigma"] = 0.0 if rng.random() < 0.5 else None
+            elif rng.random() < 0.6:
+                e[3]["sigma"] = float(rng.choice([0.05, 0.2]))
+    for it in spec.get("interactions", []):
+        for e in it.get("entries", []):
+            if zero:
+                e[2]["sigma"] = 0.0 if rng.random() < 0.5 else None
+            elif rng.random() < 0.6:
+                e[2]["sigma"] = float(rng.choice([0.05, 0.2]))
     if ps is not None:
         for p in ps["programs"]:
             p["spend_sigma"] = (0.0 if rng.random() < 0.5 else None) if zero else float(rng.choice([1.0, 50.0]))
@@ -90,9 +103,11 @@ def build(case):
 
 
 def fingerprint_of(result, spec):
-    """What was perturbed in this sample, as carried by the returned Result."""
+    """What was perturbed in this sample, as carried by the returned Result: "<hash of everything>/<number of uncertain
+    quantities visible unclipped>|<json {quantity: hash of its sampled value}>" (the last part only for uncertain quantities
+    whose value is visible unclipped - two draws clipped to the same limit look identical)."""
     parts = []
-    interior = 0  # uncertain quantities whose sampled value is visible unclipped (two draws clipped to the same limit look identical)
+    uq = {}
     datapars = {p["name"] for p in spec["pars"] if p["db"] and not p.get("function")}
     for pop in result.model.pops:
         for par in pop.pars:
@@ -101,17 +116,43 @@ def fingerprint_of(result, spec):
                 parts.append((pop.name, par.name, v0.tobytes().hex()))
                 sig = spec["values"].get(par.name, {}).get(pop.name, {}).get("sigma") or 0
                 lim = par.limits if par.limits is not None else ()
-                if sig > 0 and v0.size and not any(float(v0[0]) == float(l) for l in lim if l is not None):
-                    interior += 1
+                yf = spec.get("yfactors", {}).get(par.name, {}).get(pop.name, 1.0)
+                targeted = result.model.progset is not None and (par.name, pop.name) in result.model.progset.covouts  # the recorded value is then the programme's
+                if sig > 0 and v0.size and yf != 0 and not targeted and np.isfinite(v0[0]) and not any(float(v0[0]) == float(l) for l in lim if l is not None):
+                    uq["parameter:%s:%s" % (par.name, pop.name)] = v0.tobytes().hex()
+    # transfers (model parameters <transfer>_<from>_to_<to>) and interactions (weights [from, to, t])
+    for t in spec.get("transfers", []):
+        for a, b, units, v in t["entries"]:
+            for pop in result.model.pops:
+                if pop.name != a:
+                    continue
+                for par in pop.pars:
+                    if par.name == "%s_%s_to_%s" % (t["name"], a, b):
+                        v0 = np.asarray(par.vals, dtype=float)[:1]
+                        parts.append(("transfer", par.name, v0.tobytes().hex()))
+                        lim = par.limits if par.limits is not None else (0.0,)
+                        if (v.get("sigma") or 0) > 0 and not any(float(v0[0]) == float(l) for l in lim if l is not None):
+                            uq["transfer:%s" % par.name] = v0.tobytes().hex()
+    for it in spec.get("interactions", []):
+        w = result.model.interactions.get(it["name"]) if hasattr(result.model, "interactions") else None
+        if w is not None:
+            h = np.asarray(w, dtype=float)[:, :, 0].tobytes().hex()
+            parts.append(("interaction", it["name"], h))
+            if any((e[2].get("sigma") or 0) > 0 and (e[2].get("a") or 0) > 0 for e in it.get("entries", [])):
+                uq["interaction:%s" % it["name"]] = digest._h(h.encode())
     ps = result.model.progset
     if ps is not None:
         for name, prog in ps.programs.items():
-            parts.append(("spend", name, repr(prog.spend_data.assumption), repr(prog.spend_data.vals)))
-            interior += 1 if (prog.spend_data.sigma or 0) > 0 else 0
+            r = repr((prog.spend_data.assumption, list(prog.spend_data.vals)))
+            parts.append(("spend", name, r))
+            if (prog.spend_data.sigma or 0) > 0:
+                uq["spend:%s" % name] = digest._h(r.encode())
         for key, co in ps.covouts.items():
-            parts.append(("covout", str(key), repr(sorted(co.progs.items())), repr(co.imp_interaction)))
-            interior += 1 if (co.sigma or 0) > 0 else 0
-    return "%s/%d" % (digest._h(repr(parts).encode()), interior)
+            r = repr((sorted(co.progs.items()), co.imp_interaction))
+            parts.append(("covout", str(key), r))
+            if (co.sigma or 0) > 0:
+                uq["outcome:%s" % str(key)] = digest._h(r.encode())
+    return "%s/%d|%s" % (digest._h(repr(parts).encode()), len(uq), json.dumps(uq, sort_keys=True))
 
 
 _CASE = {}
@@ -198,6 +239,7 @@ def run_case(case):
         # the fingerprint sees data parameters and programme data: is any of them given a positive uncertainty?
         datapars = {p["name"] for p in spec["pars"] if p["db"] and not p.get("function")}
         any_par = any((v.get("sigma") or 0) > 0 for name, popvals in spec["values"].items() if name in datapars for v in popvals.values())
+        any_par = any_par or any((e[3].get("sigma") or 0) > 0 for t in spec.get("transfers", []) for e in t["entries"]) or any((e[2].get("sigma") or 0) > 0 and (e[2].get("a") or 0) > 0 for it in spec.get("interactions", []) for e in it.get("entries", []))
         any_prog = pset is not None and (any((prog.spend_data.sigma or 0) > 0 for prog in pset.programs.values()) or any((co.sigma or 0) > 0 for co in pset.covouts.values()))
         if not (any_par or any_prog):
             R.count("model_without_any_uncertain_quantity")
@@ -282,6 +324,28 @@ def run_case(case):
 
             shutil.rmtree(td, ignore_errors=True)
     R.count("calls_with_positive_uncertainty")
+    uqs = []
+    for s_ in samples:
+        head, _, tail = str(s_["fp"]).partition("|")
+        s_["fp"] = head
+        try:
+            uqs.append(json.loads(tail) if tail else {})
+        except Exception:
+            uqs.append({})
+    # every uncertain quantity on its own: its value must differ between any two samples in which it is visible unclipped
+    if len(uqs) >= 2:
+        for key in sorted(set().union(*[set(u) for u in uqs])):
+            vals_ = [u[key] for u in uqs if key in u]
+            if len(vals_) < 2:
+                continue
+            R.count("uncertain_quantities_compared")
+            kind_ = key.split(":")[0]
+            if len(set(vals_)) == 1:
+                R.bad("every-uncertain-quantity-perturbed", "C17:uncertain-quantity-not-perturbed[%s,%s]" % (kind_, case["mode"]), {"quantity": key, "samples": len(vals_)})
+            elif len(set(vals_)) < len(vals_):
+                R.bad("every-uncertain-quantity-perturbed", "C17:uncertain-quantity-shares-a-draw[%s,%s]" % (kind_, case["mode"]), {"quantity": key, "samples": len(vals_), "distinct": len(set(vals_))})
+            else:
+                R.ok("every-uncertain-quantity-perturbed")
     fps = [s["fp"] for s in samples]
     n = len(fps)
     R.count("sample_pairs_compared", n * (n - 1) // 2)
